@@ -188,7 +188,13 @@ def run(ck):
         acases.append("intern\tabspath\t" + ",".join("a%s:%s" % (d.hex(), p.hex()) for d, p in h))
         awant.append([lexnorm(d, p) for d, p in h])
     aimpl = run_cases(harness, acases)
+    amod = run_cases(model, acases)
     ck.evaluations += len(acases)
+    for c, r, m in zip(acases, aimpl, amod):
+        if r != m:
+            ck.violation("correspondence: AbsPath.abs_norm says %s, AbsPathInterner %s on %s" % (m[:160], r[:160], c[:200]),
+                         {"correspondence": "AbsPath.abs_norm + Interner vs AbsPathInterner::intern / get", "harness_case": c, "model": m[:2000]}, no_input=True)
+            break
     for c, r, want in zip(acases, aimpl, awant):
         ck.nontriv(c)
         ck.count("abspath:" + r.split(" ")[0])
